@@ -1545,6 +1545,12 @@ class Emitter:
         c = inner.pop(0)
         then = inner.pop(0)
         els = inner.pop(0) if inner else None
+        core = skip(c)
+        if not opened and core.get("kind") == "CXXBoolLiteralExpr" and not core.get("value"):
+            # `if (false) { debug code }`: statically dead branch, only the else part (if any) is emitted
+            if els is None or self.is_log_stmt(els):
+                return []
+            return self.body(els, ind)
         pre, ce = self.with_pre(lambda: self.E(c))
         if pre and not opened:
             out.append(ind + "{")
